@@ -4,6 +4,8 @@ import json, os, re
 
 VERIF = os.path.dirname(os.path.abspath(__file__))
 DEFAULT_ENUMS = ['bloc::EXC_RT', 'bloc::Type::TypeMajor']
+STD_STRING = 'std::__cxx11::basic_string<char, std::char_traits<char>, std::allocator<char> >'
+VEC_CHAR = 'std::vector<char, std::allocator<char> >'
 DEFAULT_STRUCTS = ['bloc::RuntimeError', 'bloc::Value']
 
 # ---- mangled names used all over ----
@@ -81,6 +83,9 @@ def all_jobs():
                           ('complex_assign_distinct', '_ZN4bloc7ComplexaSERKS0_', ['ASSIGN_DISTINCT']), ('complex_assign_shared', '_ZN4bloc7ComplexaSERKS0_', [])):
         J.append(dict(id=jid, src='blocc/complex.cpp', contract='complex.c', enforce=mg, roots=[mg], replace=[], cut=CX_CUT, defines=defs,
                       props=['C01', 'C17'], pretty='bloc::Complex (%s)' % jid, canaries=['normal'], structs=DEFAULT_STRUCTS + ['bloc::PLUGGED_MODULE', 'bloc::Complex']))
+    for fn in ('bloc_boolean', 'bloc_integer', 'bloc_numeric', 'bloc_literal', 'bloc_tabchar', 'bloc_value_isnull'):
+        J.append(dict(id='capi_' + fn, src='blocc/bloc_capi.cpp', contract='capi.c', enforce=fn, roots=[fn], replace=[], cut=[RTE_CTOR, RTE_CTOR_S],
+                      props=['C01', 'C15'], pretty=fn, canaries=['normal'], structs=DEFAULT_STRUCTS + [STD_STRING, VEC_CHAR, 'bloc::Error']))
     mg = '_ZNK4bloc12FORStatement4doitERNS_7ContextE'
     CTX_STUBS = ['_ZN4bloc7Context10topControlEv', '_ZN4bloc7Context14topControlDataEv', '_ZN4bloc7Context12stackControlEPKNS_10ControllerEPv',
                  '_ZN4bloc7Context14unstackControlEv', '_ZN4bloc7Context9getSymbolEj', '_ZN4bloc7Context13storeVariableEjONS_5ValueE',
